@@ -8,6 +8,7 @@ import (
 	"encoding/json"
 	"fmt"
 	"io"
+	"math"
 
 	"github.com/dtn7/cboring"
 )
@@ -39,6 +40,10 @@ func (bab *BundleAgeBlock) Age() uint64 {
 // Increment with an offset in milliseconds and return the new time.
 func (bab *BundleAgeBlock) Increment(offset uint64) uint64 {
 	newBabVal := uint64(*bab) + offset
+	if newBabVal < offset {
+		// An age that huge does not wrap around to a young one; it stays at the maximum.
+		newBabVal = math.MaxUint64
+	}
 	*bab = BundleAgeBlock(newBabVal)
 	return newBabVal
 }
